@@ -176,6 +176,11 @@ func (checker *Checker) iterableElementType(valueType Type, hasPosition ast.HasP
 	case ArrayType:
 		return valueType.ElementType(false)
 	case *InclusiveRangeType:
+		// NOTE: the member type is nil if the type is not instantiated.
+		// An error was already reported for the type
+		if valueType.MemberType == nil {
+			return InvalidType
+		}
 		return valueType.MemberType
 	case *DictionaryType:
 		return valueType.KeyType
